@@ -24,8 +24,6 @@ Lemma C02_from_reads {A} (R : Z -> Prop) (p : prog A) : reads_in R p -> C02_hold
 Proof. intros H fail m. apply Forall_rev. apply (run_trace_reads fail R p H (w0 m)). constructor. Qed.
 
 (* C05: handler invocations and return code *)
-Definition report_post (k : hkind) (hs : list (hkind * Z)) (r : Z) : Prop :=
-  (r = 0 /\ hs = []) \/ (r <> 0 /\ hs = [(k, r)]).
 Definition C05_holds (k : hkind) (p : prog Z) : Prop :=
   forall fail m, let '(r, st) := run fail p (w0 m) in report_post k (handlers (rev (wtr st))) r.
 Lemma C05_from_hspec k (p : prog Z) : hspec (report_post k) [] p -> C05_holds k p.
